@@ -11,6 +11,7 @@ import json
 import os
 import shutil
 import subprocess
+import re
 import sys
 import tempfile
 from concurrent.futures import ThreadPoolExecutor
@@ -48,7 +49,11 @@ def _run_one(args):
                 if r.returncode != 0:
                     return ("skipped", item, "transform failed: " + (r.stderr or r.stdout)[-200:])
         else:
-            r = subprocess.run(["patch", "-p1", "-s", "-d", tmp, "-i", item["patch"]], capture_output=True, text=True)
+            # only the package is copied: sections of the patch that touch other files (README.md ...) are left out
+            with open(item["patch"], newline="") as fh:
+                sections = re.split(r"(?m)^(?=diff --git )", fh.read())
+            keep = [s_ for s_ in sections if not s_.startswith("diff --git ") or re.match(r"diff --git a/pysnark/", s_)]
+            r = subprocess.run(["patch", "-p1", "-s", "-d", tmp], input="".join(keep), capture_output=True, text=True)
             if r.returncode != 0:
                 return ("skipped", item, "patch does not apply to this tree")
         env = dict(os.environ, PYSNARK_SA_EVIDENCE_DIR=os.path.join(tmp, "ev"), VERIF_TIER="quick")
